@@ -76,6 +76,9 @@ func genC12(r *kernel.Rand) *kernel.Scenario {
 	// H has a pending own request while the messages arrive: 1 = for 3 s, 2 = for
 	// 12 s (longer than the library's 10 s timeouts for taking the machine lock)
 	c["hold"] = int64(r.Weighted([]int{3, 2, 2}))
+	if c["virtual"] > 0 && r.Bool(0.25) {
+		c["vsettle_gap_ms"] = int64([]int{9990, 9998, 10000, 10002, 10010, 10500, 12000}[r.Intn(7)])
+	}
 	// Swarm weights: messages that the victim actually acts on (valid updates,
 	// sync messages for an open channel, well-formed proposals) create in-flight
 	// state for the other messages to collide with, so they are drawn more often;
@@ -176,6 +179,15 @@ func execC12(tt *testing.T, sc *kernel.Scenario, trace bool) *kernel.Result {
 		}
 		s.Count("probe.hostile_messages", int64(sent))
 		<-holdDone
+		if sc.Cfg("vsettle_gap_ms", 0) > 0 && a.virt != nil && !s.Failed() {
+			// the honest virtual channel is finalised and settled, the two parties'
+			// settlement proposals reaching the hub more than its 10 s patience apart
+			// (pure timing; whether the settlement succeeds is not judged here, the
+			// probes below are)
+			errA, errB := t.settleVirtual(len(sc.Steps), 0, 1)
+			s.Count("fault.virtual_settlement_proposals_far_apart", 1)
+			s.Note("late virtual settlement: errA=%v errB=%v", errA, errB)
+		}
 		// faults have stopped: run past every internal timeout, then probe
 		t.A.OnUpdate = func(cur *channel.State, u client.ChannelUpdate) (bool, time.Duration) {
 			return true, 50 * time.Microsecond
